@@ -181,11 +181,45 @@ def check(ctx):
             ctx.violation("dispatch-unknown:" + nm, nm, "err unknownfn", real, "dispatch(%r,[1])" % nm)
         cases.append(("disp %s 0 -" % nm, real, nm))
 
+    # keywords handed to functions that declare NO keyword: rejected before the body runs, too
+    probes = [("sin", [0]), ("range", [1, 3]), ("log", [8, 2]), ("max", [1, 2]), ("C", [4, 2]), ("+", [1, 2]), ("seed", [5]),
+              ("interval", [1, 2]), ("sum", [vals["Array"]]), ("floor", [Fraction(7, 2)]), ("!", [3]), ("year", [vals["Instant"]])]
+    for name, args in probes:
+        if name not in F.FUNCTIONS:
+            continue
+        called = []
+        saved = [(hh, hh.f) for hh in F.FUNCTIONS[name]]
+        for hh, f in saved:
+            hh.f = (lambda *a, **kw: called.append(1))
+        try:
+            try:
+                F.dispatch(name, args, kw_args={"bogus": 1})
+                real = "ok"
+            except Exception as e:  # noqa
+                real = "err " + core.err_code(e)
+        finally:
+            for hh, f in saved:
+                hh.f = f
+        key = "%s(..., bogus: 1)" % name
+        ctx.count(key, bucket="kw-on-nokw:" + real)
+        if real != "err unknownkw" or called:
+            ctx.violation("dispatch-kw:" + key, key, "UnknownKeywordError before the body runs", "%s body_ran=%s" % (real, bool(called)),
+                          "ka.functions.dispatch(%r, %r, kw_args={'bogus': 1})" % (name, args))
+        cls = [classes.index(type(a).__name__ if type(a).__name__ in classes else "int") for a in args]
+        cases.append(("disp %s %s 999:0" % (name, ",".join(map(str, cls))), real, key))
+
     def agree(real, model, info):
         if real == "ok":
             return model.startswith("ok")
         return real == model
     ctx.correspond("disp", cases, agree=agree)
+    # a value is accepted where a wider numeric kind is expected — also in VARARG positions (lazy values are Numbers)
+    for text, want in (("max(3!, 7)", 7), ("min(C(5,2), 12)", 10), ("min(4, 3!, 5/2)", Fraction(5, 2)), ("max(2, 0*3!)", 2),
+                       ("x = C(6,3); max(x, 21, 0.5)", 21), ("max(3!)", 6), ("min(1/2, 1)", Fraction(1, 2)), ("max(1, 2.5, 7/2)", Fraction(7, 2))):
+        k, v = R.value(text)
+        ctx.count("widen:" + text, bucket="widening-exec")
+        if k != "ok" or v != want:
+            ctx.violation("dispatch-widen:" + text, text, str(want), repr((k, v)), "execute(%r)" % text)
 
     # ---- no narrowing, on the real code
     for name in names:
